@@ -64,6 +64,7 @@ type vsymEtcd struct {
 	onOpDone func(who, op, key string) // after the operation took effect, before the caller sees the reply
 	failNext func(op, key string) bool
 	log      []string
+	atomic   int        // 0: every write opens a revision; 1/2: inside one atomic operation (2: revision already opened)
 	mu       sync.Mutex // native runs only: the code under test calls the model from several goroutines
 }
 
@@ -163,8 +164,30 @@ func (w *vsymEtcdWatch) matches(k string) bool {
 	return k >= w.key && (w.end == "\x00" || k < w.end)
 }
 
+// bump opens a new revision unless one atomic operation (a transaction, a lease ending, a batch)
+// is in progress: all its writes share one revision, as in etcd.
+func (e *vsymEtcd) bump() {
+	if e.atomic == 0 {
+		e.rev++
+	} else if e.atomic == 1 {
+		e.rev++
+		e.atomic = 2
+	}
+}
+
+// atomically runs f as one revision.
+func (e *vsymEtcd) atomically(f func()) {
+	if e.atomic != 0 {
+		f()
+		return
+	}
+	e.atomic = 1
+	f()
+	e.atomic = 0
+}
+
 func (e *vsymEtcd) put(key string, val []byte, lease clientv3.LeaseID) *mvccpb.KeyValue {
-	e.rev++
+	e.bump()
 	var prev *mvccpb.KeyValue
 	en, ok := e.data[key]
 	if ok {
@@ -183,7 +206,7 @@ func (e *vsymEtcd) del(key, end string) int64 {
 	if len(ks) == 0 {
 		return 0
 	}
-	e.rev++
+	e.bump()
 	for _, k := range ks {
 		prev := e.kv(k, e.data[k])
 		delete(e.data, k)
@@ -338,24 +361,31 @@ func (t *vsymEtcdTxn) Commit() (*clientv3.TxnResponse, error) {
 		ops = t.els_
 	}
 	resp := &pb.TxnResponse{Header: e.header(), Succeeded: ok}
-	for _, op := range ops {
-		k, end := string(op.KeyBytes()), string(op.RangeBytes())
-		switch {
-		case op.IsGet():
-			resp.Responses = append(resp.Responses, &pb.ResponseOp{Response: &pb.ResponseOp_ResponseRange{ResponseRange: e.rangeResp(k, end)}})
-		case op.IsPut():
-			lease := t.f.leaseFor(op)
-			if lease != 0 {
-				if l, found := e.leases[lease]; !found || !l.alive {
-					return nil, errors.New("etcdserver: requested lease not found")
+	var txnErr error
+	e.atomically(func() {
+		for _, op := range ops {
+			k, end := string(op.KeyBytes()), string(op.RangeBytes())
+			switch {
+			case op.IsGet():
+				resp.Responses = append(resp.Responses, &pb.ResponseOp{Response: &pb.ResponseOp_ResponseRange{ResponseRange: e.rangeResp(k, end)}})
+			case op.IsPut():
+				lease := t.f.leaseFor(op)
+				if lease != 0 {
+					if l, found := e.leases[lease]; !found || !l.alive {
+						txnErr = errors.New("etcdserver: requested lease not found")
+						return
+					}
 				}
+				e.put(k, op.ValueBytes(), lease)
+				resp.Responses = append(resp.Responses, &pb.ResponseOp{Response: &pb.ResponseOp_ResponsePut{ResponsePut: &pb.PutResponse{Header: e.header()}}})
+			case op.IsDelete():
+				n := e.del(k, end)
+				resp.Responses = append(resp.Responses, &pb.ResponseOp{Response: &pb.ResponseOp_ResponseDeleteRange{ResponseDeleteRange: &pb.DeleteRangeResponse{Header: e.header(), Deleted: n}}})
 			}
-			e.put(k, op.ValueBytes(), lease)
-			resp.Responses = append(resp.Responses, &pb.ResponseOp{Response: &pb.ResponseOp_ResponsePut{ResponsePut: &pb.PutResponse{Header: e.header()}}})
-		case op.IsDelete():
-			n := e.del(k, end)
-			resp.Responses = append(resp.Responses, &pb.ResponseOp{Response: &pb.ResponseOp_ResponseDeleteRange{ResponseDeleteRange: &pb.DeleteRangeResponse{Header: e.header(), Deleted: n}}})
 		}
+	})
+	if txnErr != nil {
+		return nil, txnErr
 	}
 	resp.Header = e.header()
 	if e.onOpDone != nil {
@@ -438,9 +468,11 @@ func (e *vsymEtcd) expireLocked(id clientv3.LeaseID) {
 		}
 	}
 	sort.Strings(ks)
-	for _, k := range ks {
-		e.del(k, "")
-	}
+	e.atomically(func() { // a lease's keys go in one revision
+		for _, k := range ks {
+			e.del(k, "")
+		}
+	})
 	for _, k := range l.ka {
 		k.close()
 	}
